@@ -1,12 +1,190 @@
-//! PxE1<N> / PxE2<N>, N in 2..=32 (filled in later)
+//! PxE1<N> / PxE2<N>, N in 2..=32: every width instantiated; values are the 32-bit left-aligned storage.
 use crate::quire::QAny;
-use crate::sink::Outcome;
 use crate::val::Val;
-pub fn exec_px(_t: &str, _n: u32, _op: &str, _sp: &str, _x: &[u64]) -> Option<Vec<Val>> {
-    None
+use core::cmp::Ordering;
+use softposit::{PxE1, PxE2, Quire, P16E1, P32E2, P8E0, Q32E2};
+
+fn ord(o: Ordering) -> Val {
+    Val::I(match o {
+        Ordering::Less => -1,
+        Ordering::Equal => 0,
+        Ordering::Greater => 1,
+    })
 }
-pub fn q_exec_px(_q: &mut QAny, _t: &str, _n: u32, _op: &str, _sp: &str, _x: &[u64], _bs: &[u64], _big: &[u64]) -> Option<Vec<Val>> {
-    None
+
+macro_rules! px_exec {
+    ($fname:ident, $P:ident, { $($extra:tt)* }, $p:ident, $rp:ident, $x:ident) => {
+        #[allow(unreachable_patterns)]
+        fn $fname<const N: u32>(op: &str, sp: &str, $x: &[u64]) -> Option<Vec<Val>> {
+            let $p = |i: usize| $P::<N>::from_bits($x[i] as u32);
+            let $rp = |v: $P<N>| Some(vec![Val::U(v.to_bits() as u64)]);
+            let rb = |v: bool| Some(vec![Val::B(v)]);
+            let ru = |v: u64| Some(vec![Val::U(v)]);
+            let (p, rp, x) = (&$p, &$rp, $x);
+            match (op, sp) {
+                ("add", "o") => rp(p(0) + p(1)),
+                ("sub", "o") => rp(p(0) - p(1)),
+                ("mul", "o") => rp(p(0) * p(1)),
+                ("div", "o") => rp(p(0) / p(1)),
+                ("add", "a") => { let mut a = p(0); a += p(1); rp(a) }
+                ("sub", "a") => { let mut a = p(0); a -= p(1); rp(a) }
+                ("mul", "a") => { let mut a = p(0); a *= p(1); rp(a) }
+                ("div", "a") => { let mut a = p(0); a /= p(1); rp(a) }
+                ("neg", "o") => rp(-p(0)),
+                ("mul_add", "m") => rp(p(0).mul_add(p(1), p(2))),
+                ("mul_sub", "m") => rp(p(0).mul_sub(p(1), p(2))),
+                ("sub_product", "m") => rp(p(0).sub_product(p(1), p(2))),
+                ("round", "m") => rp($P::<N>::round(p(0))),
+                ("eq", "m") => rb($P::<N>::eq(p(0), p(1))),
+                ("eq", "o") => rb(p(0) == p(1)),
+                ("ne", "o") => rb(p(0) != p(1)),
+                ("lt", "m") => rb($P::<N>::lt(&p(0), p(1))),
+                ("le", "m") => rb($P::<N>::le(&p(0), p(1))),
+                ("gt", "m") => rb($P::<N>::gt(&p(0), p(1))),
+                ("ge", "m") => rb($P::<N>::ge(&p(0), p(1))),
+                ("lt", "o") => rb(p(0) < p(1)),
+                ("le", "o") => rb(p(0) <= p(1)),
+                ("gt", "o") => rb(p(0) > p(1)),
+                ("ge", "o") => rb(p(0) >= p(1)),
+                ("cmp", "m") => Some(vec![ord($P::<N>::cmp(p(0), p(1)))]),
+                ("cmp", "o") => Some(vec![ord(Ord::cmp(&p(0), &p(1)))]),
+                ("partial_cmp", "o") => Some(vec![match PartialOrd::partial_cmp(&p(0), &p(1)) { Some(o) => ord(o), None => Val::I(2) }]),
+                ("min", "o") => rp(Ord::min(p(0), p(1))),
+                ("max", "o") => rp(Ord::max(p(0), p(1))),
+                ("clamp", "o") => rp(Ord::clamp(p(0), p(1), p(2))),
+                ("is_zero", "m") => rb(p(0).is_zero()),
+                ("is_nar", "m") => rb(p(0).is_nar()),
+                ("const", _) => rp(match sp { "ZERO" => $P::<N>::ZERO, "ONE" => $P::<N>::ONE, "NAR" => $P::<N>::NAR, "default" => $P::<N>::default(), _ => return None }),
+                ("new", "m") => rp($P::<N>::new(x[0] as u32 as i32)),
+                ("from_f32", "m") => rp($P::<N>::from_f32(f32::from_bits(x[0] as u32))),
+                ("from_f64", "m") => rp($P::<N>::from_f64(f64::from_bits(x[0]))),
+                ("from_f32", "f") => rp(<$P<N> as From<f32>>::from(f32::from_bits(x[0] as u32))),
+                ("from_f64", "f") => rp(<$P<N> as From<f64>>::from(f64::from_bits(x[0]))),
+                ("to_f32", "m") => ru(p(0).to_f32().to_bits() as u64),
+                ("to_f64", "m") => ru(p(0).to_f64().to_bits()),
+                ("to_f32", "f") => ru(f32::from(p(0)).to_bits() as u64),
+                ("to_f64", "f") => ru(f64::from(p(0)).to_bits()),
+                ("from_i32", "m") => rp($P::<N>::from_i32(x[0] as i32)),
+                ("from_u64", "m") => rp($P::<N>::from_u64(x[0])),
+                ("from_i32", "f") => rp(<$P<N> as From<i32>>::from(x[0] as i32)),
+                ("from_u64", "f") => rp(<$P<N> as From<u64>>::from(x[0])),
+                ("to_i32", "m") => ru(p(0).to_i32() as u32 as u64),
+                ("to_u32", "m") => ru(p(0).to_u32() as u64),
+                ("to_i64", "m") => ru(p(0).to_i64() as u64),
+                ("to_u64", "m") => ru(p(0).to_u64()),
+                ("to_i32", "f") => ru(i32::from(p(0)) as u32 as u64),
+                ("to_u32", "f") => ru(u32::from(p(0)) as u64),
+                ("to_i64", "f") => ru(i64::from(p(0)) as u64),
+                ("to_u64", "f") => ru(u64::from(p(0))),
+                ("to_p8", "f") => ru(P8E0::from(p(0)).to_bits() as u64),
+                ("to_p16", "f") => ru(P16E1::from(p(0)).to_bits() as u64),
+                ("to_p32", "f") => ru(P32E2::from(p(0)).to_bits() as u64),
+                ("from_p8", "f") => rp($P::<N>::from(P8E0::from_bits(x[0] as u8))),
+                ("from_p16", "f") => rp($P::<N>::from(P16E1::from_bits(x[0] as u16))),
+                ("from_p32", "f") => rp($P::<N>::from(P32E2::from_bits(x[0] as u32))),
+                $($extra)*
+                _ => None,
+            }
+        }
+    };
 }
-#[allow(dead_code)]
-fn _unused(_: Outcome) {}
+
+px_exec!(exec_x2n, PxE2, {
+    ("sqrt", "m") => rp(p(0).sqrt()),
+    ("from_u32", "m") => rp(PxE2::<N>::from_u32(x[0] as u32)),
+    ("from_i64", "m") => rp(PxE2::<N>::from_i64(x[0] as i64)),
+    ("from_u32", "f") => rp(<PxE2<N> as From<u32>>::from(x[0] as u32)),
+    ("from_i64", "f") => rp(<PxE2<N> as From<i64>>::from(x[0] as i64)),
+}, p, rp, x);
+px_exec!(exec_x1n, PxE1, {}, p, rp, x);
+
+macro_rules! dispatch_n {
+    ($n:expr, $f:ident, $($a:expr),*) => {
+        match $n {
+            2 => $f::<2>($($a),*), 3 => $f::<3>($($a),*), 4 => $f::<4>($($a),*), 5 => $f::<5>($($a),*),
+            6 => $f::<6>($($a),*), 7 => $f::<7>($($a),*), 8 => $f::<8>($($a),*), 9 => $f::<9>($($a),*),
+            10 => $f::<10>($($a),*), 11 => $f::<11>($($a),*), 12 => $f::<12>($($a),*), 13 => $f::<13>($($a),*),
+            14 => $f::<14>($($a),*), 15 => $f::<15>($($a),*), 16 => $f::<16>($($a),*), 17 => $f::<17>($($a),*),
+            18 => $f::<18>($($a),*), 19 => $f::<19>($($a),*), 20 => $f::<20>($($a),*), 21 => $f::<21>($($a),*),
+            22 => $f::<22>($($a),*), 23 => $f::<23>($($a),*), 24 => $f::<24>($($a),*), 25 => $f::<25>($($a),*),
+            26 => $f::<26>($($a),*), 27 => $f::<27>($($a),*), 28 => $f::<28>($($a),*), 29 => $f::<29>($($a),*),
+            30 => $f::<30>($($a),*), 31 => $f::<31>($($a),*), 32 => $f::<32>($($a),*),
+            _ => None,
+        }
+    };
+}
+
+// generic <-> generic (the crate only converts across exponent sizes): source width N, target width M
+fn x2_to_x1<const N: u32, const M: u32>(x: u64) -> Option<Vec<Val>> {
+    Some(vec![Val::U(PxE1::<M>::from(PxE2::<N>::from_bits(x as u32)).to_bits() as u64)])
+}
+fn x1_to_x2<const N: u32, const M: u32>(x: u64) -> Option<Vec<Val>> {
+    Some(vec![Val::U(PxE2::<M>::from(PxE1::<N>::from_bits(x as u32)).to_bits() as u64)])
+}
+macro_rules! dispatch_m {
+    ($m:expr, $f:ident, $N:ident, $x:expr) => {
+        match $m {
+            2 => $f::<$N, 2>($x), 3 => $f::<$N, 3>($x), 4 => $f::<$N, 4>($x), 5 => $f::<$N, 5>($x), 6 => $f::<$N, 6>($x),
+            7 => $f::<$N, 7>($x), 8 => $f::<$N, 8>($x), 9 => $f::<$N, 9>($x), 10 => $f::<$N, 10>($x), 11 => $f::<$N, 11>($x),
+            12 => $f::<$N, 12>($x), 13 => $f::<$N, 13>($x), 14 => $f::<$N, 14>($x), 15 => $f::<$N, 15>($x), 16 => $f::<$N, 16>($x),
+            17 => $f::<$N, 17>($x), 18 => $f::<$N, 18>($x), 19 => $f::<$N, 19>($x), 20 => $f::<$N, 20>($x), 21 => $f::<$N, 21>($x),
+            22 => $f::<$N, 22>($x), 23 => $f::<$N, 23>($x), 24 => $f::<$N, 24>($x), 25 => $f::<$N, 25>($x), 26 => $f::<$N, 26>($x),
+            27 => $f::<$N, 27>($x), 28 => $f::<$N, 28>($x), 29 => $f::<$N, 29>($x), 30 => $f::<$N, 30>($x), 31 => $f::<$N, 31>($x),
+            32 => $f::<$N, 32>($x),
+            _ => None,
+        }
+    };
+}
+fn x2_to_x1_n<const N: u32>(m: u32, x: u64) -> Option<Vec<Val>> {
+    dispatch_m!(m, x2_to_x1, N, x)
+}
+fn x1_to_x2_n<const N: u32>(m: u32, x: u64) -> Option<Vec<Val>> {
+    dispatch_m!(m, x1_to_x2, N, x)
+}
+
+/// `m`: target width for the generic-to-generic conversions (op "to_x")
+pub fn exec_px_m(t: &str, n: u32, m: u32, op: &str, sp: &str, x: &[u64]) -> Option<Vec<Val>> {
+    if op == "to_x" {
+        return if t == "x2" { dispatch_n!(n, x2_to_x1_n, m, x[0]) } else { dispatch_n!(n, x1_to_x2_n, m, x[0]) };
+    }
+    exec_px(t, n, op, sp, x)
+}
+
+pub fn exec_px(t: &str, n: u32, op: &str, sp: &str, x: &[u64]) -> Option<Vec<Val>> {
+    match t {
+        "x2" => dispatch_n!(n, exec_x2n, op, sp, x),
+        "x1" => dispatch_n!(n, exec_x1n, op, sp, x),
+        _ => None,
+    }
+}
+
+// ---- Q32E2 used with PxE2<N>
+fn q_x2n<const N: u32>(q: &mut Q32E2, op: &str, sp: &str, x: &[u64]) -> Option<Vec<Val>> {
+    let p = |i: usize| PxE2::<N>::from_bits(x[i] as u32);
+    match (op, sp) {
+        ("q_init", _) => { *q = <Q32E2 as Quire<PxE2<N>>>::init(); Some(vec![]) }
+        ("q_clear", _) => { <Q32E2 as Quire<PxE2<N>>>::clear(q); Some(vec![]) }
+        ("q_neg", _) => { <Q32E2 as Quire<PxE2<N>>>::neg(q); Some(vec![]) }
+        ("q_add", "pp") => { *q += (p(0), p(1)); Some(vec![]) }
+        ("q_sub", "pp") => { *q -= (p(0), p(1)); Some(vec![]) }
+        ("q_add", "tr") => { <Q32E2 as Quire<PxE2<N>>>::add_product(q, p(0), p(1)); Some(vec![]) }
+        ("q_sub", "tr") => { <Q32E2 as Quire<PxE2<N>>>::sub_product(q, p(0), p(1)); Some(vec![]) }
+        ("q_add", "p") => { *q += p(0); Some(vec![]) }
+        ("q_sub", "p") => { *q -= p(0); Some(vec![]) }
+        ("q_from_posit", "tr") => { *q = <Q32E2 as Quire<PxE2<N>>>::from_posit(p(0)); Some(vec![]) }
+        ("q_from_posit", "f") => { *q = Q32E2::from(p(0)); Some(vec![]) }
+        ("q_to_posit", "tr") => Some(vec![Val::U(<Q32E2 as Quire<PxE2<N>>>::to_posit(q).to_bits() as u64)]),
+        ("q_to_posit", "fr") => Some(vec![Val::U(PxE2::<N>::from(&*q).to_bits() as u64)]),
+        _ => None,
+    }
+}
+
+pub fn q_exec_px(q: &mut QAny, t: &str, n: u32, op: &str, sp: &str, x: &[u64], _bs: &[u64], _big: &[u64]) -> Option<Vec<Val>> {
+    if t != "x2" {
+        return None;
+    }
+    match q {
+        QAny::Q32(q) => dispatch_n!(n, q_x2n, q, op, sp, x),
+        _ => None,
+    }
+}
